@@ -80,7 +80,7 @@ MakeCG(G, ev) ==
       evn == {m.rep[NodeOfA(a)] : a \in ev}
       Gp == MkG(reps, d2, b2)
       keep == An(Gp, evn)
-  IN [bad |-> m.bad, g |-> SubG(Gp, keep), val |-> m.val, evn |-> evn, fixed |-> {x \in keep : fixed(x)}]
+  IN [bad |-> m.bad, g |-> SubG(Gp, keep), val |-> m.val, evn |-> evn, fixed |-> {x \in keep : fixed(x)}, rep |-> m.rep]
 
 \* ---------------------------------------------------------------- lines 1-9
 Effectiveness0(ev) == \E a \in ev : \E p \in WorldOfA(a) : p[1] = a.n /\ a.s # 0 /\ p[2] # a.s
@@ -138,4 +138,59 @@ IDStarR(G, ev, depth) ==
 MinEvent(G, ev) == {MinRef(G, a) : a \in ev}
 ClashAfterMin(G, ev) == \E a, b \in MinEvent(G, ev) : NodeOfA(a) = NodeOfA(b) /\ a.s # 0 /\ b.s # 0 /\ a.s # b.s
 IDStarRef(G, ev) == IF ClashAfterMin(G, ev) THEN ZeroT ELSE IDStarR(G, MinEvent(G, ev), Cardinality(G.n) + 3)
+
+\* ---------------------------------------------------------------- IDC* (conditional counterfactuals)
+\* Reference IDC* (Shpitser & Pearl, Figure 10), sound and partial like the reference ID* above:
+\*   1  ID*(delta) = 0                      -> undefined
+\*   2  (G', gamma' and delta') = make-cg(G, gamma and delta)
+\*   3  inconsistent                        -> 0
+\*   4  some y_x in delta' is separated from gamma' in G' with the edges out of y_x removed, given the other conditions
+\*      (rule 2 of the do-calculus in the counterfactual graph): move it into the subscripts of its descendants in gamma'
+\*   5  otherwise ID*(gamma' and delta') / ID*(delta')
+\* The separation of line 4 conditions on the remaining conditions and on the intervened (constant) nodes.
+UndefT == [t |-> "undef"]
+IsUndef(e) == e.t = "undef"
+
+RECURSIVE IDCStarR(_, _, _, _)
+IDCStarR(G, gam, del, depth) ==
+  IF del = {} THEN IDStarRef(G, gam)
+  ELSE IF depth = 0 THEN Fail
+  ELSE IF IDStarRef(G, del) = ZeroT THEN UndefT                                           \* line 1
+  ELSE
+   LET mg == {a \in MinEvent(G, gam) : ~Tautological(a)}
+       md == {a \in MinEvent(G, del) : ~Tautological(a)}
+       ev == mg \cup md
+   IN
+   IF ClashAfterMin(G, gam \cup del) \/ Effectiveness0(MinEvent(G, gam \cup del)) THEN ZeroT
+   ELSE IF md = {} THEN IDStarRef(G, gam)
+   ELSE
+    LET cg == MakeCG(G, ev) IN                                                             \* line 2
+    IF cg.bad THEN ZeroT                                                                   \* line 3
+    ELSE
+     LET nodeOf(a) == cg.rep[NodeOfA(a)]
+         gN == {nodeOf(a) : a \in mg}
+         dN == {nodeOf(a) : a \in md}
+         gOnly == {a \in mg : nodeOf(a) \notin dN}          \* outcome atoms that the conditions do not already fix
+         CfRule2(y) == LET Hy == RemoveOut(cg.g, {y})  Cy == (dN \ {y}) \cup cg.fixed IN
+                       \A a \in gOnly : MSepPath(Hy, y, nodeOf(a), Cy \ {nodeOf(a)})
+         \* a condition can be moved only if exactly one condition atom is that node
+         cands == {y \in dN : Cardinality({a \in md : nodeOf(a) = y}) = 1 /\ CfRule2(y)}
+     IN
+     \* (the relabelled atoms of make-cg equal the original ones only given the whole event: the new queries are
+     \*  built from the original atoms, the counterfactual graph is used for the separation test alone)
+     IF gOnly = {} THEN OneT
+     ELSE IF cands # {} THEN                                                               \* line 4
+        LET y == CHOOSE y \in cands : \A z \in cands : y[1] < z[1] \/ (y[1] = z[1] /\ NodeKey(y) <= NodeKey(z))
+            ya == CHOOSE a \in md : nodeOf(a) = y
+            touched == {a \in gOnly : y \in An(cg.g, {nodeOf(a)})}
+            capture == \E a \in touched : FixedIn(ya.n, WorldOfA(a))
+            newG == {IF a \in touched THEN [a EXCEPT !.iv = SeqOfWorld(WorldOfA(a) \cup {<<ya.n, ya.s>>})] ELSE a : a \in gOnly}
+            newD == md \ {ya}
+        IN IF capture THEN Fail ELSE IDCStarR(G, newG, newD, depth - 1)
+     ELSE                                                                                  \* line 5
+        LET num == IDStarRef(G, gOnly \cup md)
+            den == IDStarRef(G, md)
+        IN IF IsFail(num) \/ IsFail(den) THEN Fail ELSE FT(num, den)
+
+IDCStarRef(G, gam, del) == IDCStarR(G, gam, del, Cardinality(del) + 2)
 =============================================================================
